@@ -110,7 +110,11 @@ func mutProfile(r *rand.Rand) (gen.Profile, gen.DataCfg) {
 	p.MaxServices = 4
 	p.Mutations = true
 	p.SharedRoots = r.Intn(3) == 0
-	return p, gen.DataCfg{Seed: uint64(r.Int63()), PNull: 0, ListMax: 1 + r.Intn(3), Pool: 2 + r.Intn(3)}
+	d := gen.DataCfg{Seed: uint64(r.Int63()), PNull: 0, ListMax: 1 + r.Intn(3), Pool: 2 + r.Intn(3)}
+	if r.Intn(3) == 0 {
+		p.CommandOnly = 1
+	}
+	return p, d
 }
 
 var c06Faults = []string{"errors", "transport-error", "transport-eof", "transport-unexpected-eof", "transport-reset", "status-500", "errors+data"}
